@@ -12,6 +12,7 @@ RULE = ("one case = (method or Richardson wrapper, direction, history shape, dt/
         "recorded states, interior error within the cubic-Hermite bound, grad vs exact derivative); non-trivial = >=5 pieces; distinct by "
         "(method, direction, history, seed)")
 ASSUMPTIONS = ["interior bound: 4*(h^4*max|y''''|/384 + node error*(1+h*L)) + rounding; Richardson wrappers are compared at K*tolerance"]
+RULE += " Strata added in the fourth seeding round: Histories in which the caller edits the newest recorded state in place between two calls."
 FLOORS = {"quick": {"quiescent_checks": 150, "pieces_checked": 2000, "queries_checked": 8000, "backward_runs_10_pieces": 20, "post_terminal_objects": 10,
                     "post_failure_objects": 10, "splitting_runs": 4, "richardson_runs": 3, "failures_inside_a_retry": 3, "richardson_runs_6_or_more_levels": 6, "time_scaled_runs": 9, "near_node_queries": 2000, "state_edits_between_calls": 16},
           "thorough": {"quiescent_checks": 800, "pieces_checked": 20000, "queries_checked": 50000, "backward_runs_10_pieces": 90, "post_terminal_objects": 50,
